@@ -100,7 +100,7 @@ def enum_fields(es):
 def enum_stream(rep, drv, rng, quick):
     from translate.c20late import observe_enum_parse
 
-    n = 260 if quick else 2000
+    n = 200 if quick else 2000
     blocks = [gen_enumerators(rng) for _ in range(n)]
     resp = drv.batch([["c20.enum"] + enum_fields(es) for es in blocks])
     bad = raised = 0
@@ -245,7 +245,7 @@ def judge(obs, base, gnames, badnames, hows):
 
 
 def later_stream(rep, drv, real, rng, quick, cases, baselines):
-    n_sets = 10 if quick else 40
+    n_sets = 7 if quick else 40
     n_fresh_max = 4 if quick else 12
     gis = sorted({c["gi"] for c in cases if (c["gi"], True, False) in baselines})
     rng.shuffle(gis)
@@ -296,7 +296,7 @@ def later_stream(rep, drv, real, rng, quick, cases, baselines):
         plans = []
         for ai, a in enumerate(adds):       # every additional file alone, at a random place
             plans.append(([ai], rng.randint(0, len(gnames)), False))
-        plans.append((list(range(len(adds))), 0, sets_done <= 2))     # all of them, read before every valid file
+        plans.append((list(range(len(adds))), 0, sets_done <= (1 if quick else 4)))     # all of them, read before every valid file
         plans.append((rng.sample(range(len(adds)), 3), rng.randint(0, len(gnames)), False))
         if polluted:
             plans = [(w, 0 if len(w) == 1 else k, True) for w, k, _ in plans if len(w) > 1 or adds[w[0]][0].startswith("include")]
@@ -357,8 +357,146 @@ def later_stream(rep, drv, real, rng, quick, cases, baselines):
             "later_sets_whose_valid_files_fail_in_correlate_by_themselves": late_base_fail, "later_additional_file_histogram": dict(sorted(hist.items()))}
 
 
+# ---------------------------------------------------------------------------------------------------------
+# INCLUDE: nested readers over a directory tree (model lean/FordModel/IncludeNest.lean)
+# ---------------------------------------------------------------------------------------------------------
+INC_DIRS = ["", "inc/", "sub/", "inc/deep/"]
+REFUSED_LINE = "integer :: y !| doc beside code"      # (the reader's message for this one names the file it is reading)
+
+
+def gen_fs(rng):
+    """-> (top, inc_dirs, files): files = {relative path: ("I", items) | ("R", items before the refused line) | ("U",)}"""
+    n = rng.randint(1, 5)
+    names = []
+    for i in range(n):
+        base = rng.choice([f"c{i}", f"c{i}", "same"]) + rng.choice([".inc", ".fi", ".incl"])
+        names.append(rng.choice(INC_DIRS) + base)
+    names = sorted(set(names))
+    top = rng.choice(["", "sub/"]) + "a_top.f90"
+    every = [top] + names
+    files = {}
+    k = [0]
+
+    def stmt():
+        k[0] += 1
+        return rng.choice([f"x{k[0]} = 1", f"integer :: v{k[0]}", f"call p{k[0]}(1)", f"real :: r{k[0]}(3)"])
+
+    def rel(frm, to):
+        """`to` as seen from the directory of `frm`, in one of several ways (not all of them resolve)"""
+        fd = frm.rsplit("/", 1)[0] + "/" if "/" in frm else ""
+        x = rng.random()
+        if x < 0.7:
+            import os
+            return os.path.relpath("/r/" + to, "/r/" + fd)
+        if x < 0.85:
+            return to                       # relative to the root: found from the root, or through inc_dirs
+        return to.rsplit("/", 1)[-1]        # the bare name: found beside the includer, or through inc_dirs
+
+    def inc_line(frm):
+        x = rng.random()
+        later_ones = [n_ for n_ in names if n_ > frm or frm == top]
+        if x < 0.62 and later_ones:
+            name = rel(frm, rng.choice(later_ones))     # (towards later names: no cycle)
+        elif x < 0.8 and names:
+            name = rel(frm, rng.choice(names))
+        elif x < 0.84:
+            name = rel(frm, frm)            # itself
+        elif x < 0.89:
+            name = rng.choice(["nowhere.inc", "inc/nowhere.fi", "../up.inc"])
+        elif x < 0.96:
+            name = rng.choice(["config.h", "inc/defs.h"])      # (no `.h` file exists anywhere)
+        else:
+            name = rel(frm, top)
+        q = rng.choice(["'", '"'])
+        sp = rng.choice(["include ", "INCLUDE ", "Include  ", "include", "include\t"])
+        return sp + q + name + q + (rng.choice(["", "", "", " extra"]) if rng.random() < 0.1 else "")
+
+    for f in every:
+        x = rng.random()
+        items = []
+        for _ in range(rng.randint(0, 4)):
+            items.append(inc_line(f) if rng.random() < 0.45 else stmt())
+        if f != top and x < 0.08:
+            files[f] = ("U",)
+        elif x < 0.16:
+            files[f] = ("R", items)
+        else:
+            files[f] = ("I", items)
+    inc_dirs = rng.choice([[], [], ["inc"], ["inc", ""], ["sub", "inc/deep"]])
+    return top, inc_dirs, files
+
+
+def real_include(ford, root, top, inc_dirs, files):
+    import ford.reader as rd
+
+    if root.exists():
+        shutil.rmtree(root)
+    root.mkdir(parents=True)
+    for f, body in files.items():
+        p = root / f
+        p.parent.mkdir(parents=True, exist_ok=True)
+        if body[0] == "U":
+            p.write_bytes(b"integer :: caf\xe9 \xff\xfe\n")
+        else:
+            p.write_text("".join(l + "\n" for l in body[1]) + (REFUSED_LINE + "\ninteger :: after\n" if body[0] == "R" else ""))
+    buf = io.StringIO()
+    try:
+        with contextlib.redirect_stdout(buf), contextlib.redirect_stderr(buf):
+            items = list(rd.FortranReader(str(root / top), "!", ">", "*", "|", inc_dirs=[str(root / d) for d in inc_dirs]))
+        return ["items"] + items
+    except RecursionError:
+        return ["error", "recursion"]
+    except FileNotFoundError as e:
+        m = str(e)
+        return ["error", "missing", m[m.index('"') + 1:m.rindex('"')] if m.count('"') >= 2 else m]
+    except UnicodeDecodeError:
+        return ["error", "undecodable"]
+    except (ValueError, RuntimeError) as e:
+        m = str(e)
+        named = m.split("\n")[0][len("In file "):] if m.startswith("In file ") else "?"
+        return ["error", "refused", "/r/" + str(Path(named).relative_to(root)) if named.startswith(str(root)) else named]
+    except Exception as e:  # noqa
+        return ["error", "other:" + type(e).__name__, str(e)[:80]]
+
+
+def include_stream(rep, drv, real, rng, quick):
+    n = 120 if quick else 1500
+    root = real.root / "incfs"
+    cases = [gen_fs(rng) for _ in range(n)]
+    reqs = []
+    for top, inc_dirs, files in cases:
+        r = ["c20.include", "64", "/r/" + top, ",".join("/r/" + d for d in inc_dirs)]
+        for f, body in files.items():
+            r += ["|", "/r/" + f, body[0]] + (list(body[1]) if len(body) > 1 else [])
+        reqs.append(r)
+    resp = drv.batch(reqs)
+    bad = 0
+    hist: dict[str, int] = {}
+    nested = other_file = 0
+    for (top, inc_dirs, files), r in zip(cases, resp):
+        got = real_include(real, root, top, inc_dirs, files)
+        want = list(r[1:]) if r[0] == "ok" else ["bad-request"]
+        key = want[0] if want[0] == "items" else ":".join(want[:2])
+        hist[key] = hist.get(key, 0) + 1
+        if want[:2] == ["error", "undecodable"]:
+            want = want[:2]                    # (the exception does not say which file)
+        if want[:2] == ["error", "refused"] and want[2:] != ["/r/" + top]:
+            other_file += 1
+        if want[0] == "items" and want[1:] != list(files[top][1] if len(files[top]) > 1 else []):
+            nested += 1
+        if got != want:
+            bad += 1
+            rep.tie_broken(f"correspondence includes: list(FortranReader({top!r}, inc_dirs={inc_dirs})) gives {got[:8]}, the model (IncludeNest.readFile) {want[:8]}",
+                           {"stream": "includes", "top": top, "inc_dirs": inc_dirs, "files": {k: list(v) for k, v in files.items()},
+                            "impl": got, "model": want})
+    return {"include_trees_compared": n, "include_disagreements": bad, "include_outcome_histogram": dict(sorted(hist.items())),
+            "include_trees_whose_error_names_another_file_than_the_one_read": other_file,
+            "include_trees_with_items_from_included_files": nested}
+
+
 def run_stream(rep, drv, real, rng, quick, cases, baselines):
     cov = enum_stream(rep, drv, rng, quick)
+    cov.update(include_stream(rep, drv, real, rng, quick))
     cov.update(later_stream(rep, drv, real, rng, quick, cases, baselines))
     return cov
 
